@@ -368,3 +368,27 @@ func HarnessC16MatrixEcho(L int) {
 	}
 	verifReach("linted")
 }
+
+// HarnessC16Gutter: the default output with a snippet: header, an empty gutter
+// line, the source line behind "<line> | ", and the indicator line. For line
+// numbers around every power of ten (1, 9, 10, 11, 99, 100, 101, 109, 110,
+// 999, 1000, 1001, 1099) and a symbolic column, the three bars stand in one
+// column and the caret stands under the reported column of the source line.
+func HarnessC16Gutter() {
+	lines := []int{1, 9, 10, 11, 99, 100, 101, 109, 110, 999, 1000, 1001, 1099}
+	ln := lines[verifChoose("line", len(lines))]
+	col := 1 + verifChoose("column", 4)
+	src := []byte(strings.Repeat("abcdef ghi\n", 1100))
+	e := &Error{Message: "m", Filepath: "f.yml", Line: ln, Column: col, Kind: "k"}
+	out := verifPrintedWithSource(e, src)
+	verifReach("printed")
+	verifCheck(len(out) == 4, "snippet-not-printed-as-four-lines")
+	if len(out) != 4 {
+		return
+	}
+	digits := len(strconv.Itoa(ln))
+	bar := digits + 1
+	verifCheck(len(out[1]) == bar+1 && out[1][bar] == '|', "gutter-bars-not-aligned")
+	verifCheck(len(out[2]) > bar+2 && out[2][bar] == '|' && out[2][bar+2:] == "abcdef ghi", "source-line-not-behind-the-gutter")
+	verifCheck(len(out[3]) > bar+1+col && out[3][bar] == '|' && out[3][bar+1+col] == '^', "caret-not-under-the-reported-column")
+}
